@@ -36,7 +36,7 @@ MF = MessageFactory(SDC, None, logger=None, validate=False)
 MR = MessageReader(SDC, None, logger=None, validate=False)
 BASE_URLS = [urlsplit('http://127.0.0.1:9000/dev')]
 BODY = etree.Element('body')
-DELIVERY_ERRORS = (HTTPReturnCodeError, ConnectionRefusedError, TimeoutError)
+DELIVERY_ERRORS = (Exception,)       # the subscription counts the failure and re-raises; the managers log and go on (mgr_history)
 
 A1, A2, A3 = 'http://x/y/Act1', 'http://x/y/Act2', 'http://x/y/Act3'
 # report actions against the filter (A1, A2): literal first entry, literal second entry, a proper suffix of an entry (the
@@ -147,7 +147,7 @@ def send_iff_alive(is_async: bool, closed: bool, errors: int, expire: int, start
     pre: dt >= 0
     pre: 0 <= asel < 4
     pre: 0 <= asel2 < 4
-    pre: 0 <= o1 < 4
+    pre: 0 <= o1 < 7
     post: __return__ == 'ok'
     """
     orc = Oracle()
@@ -344,6 +344,9 @@ def step(w, orc, op, t, p, q, zombies):
         req = evt.Subscribe()
         req.set_filter(' '.join(filt))
         req.Delivery.NotifyTo.Address = notify
+        ident = etree.Element('{urn:verif}NotifyIdent')       # a reference parameter of the NotifyTo endpoint ONLY
+        ident.text = f'n{w.n}'
+        req.Delivery.NotifyTo.ReferenceParameters = [ident]
         if end:
             req.init_end_to()
             req.EndTo.Address = end
@@ -413,6 +416,7 @@ def step(w, orc, op, t, p, q, zombies):
             for e in mine:
                 hib = e[2].p_msg.header_info_block
                 orc.check(hib.To == m.notify and hib.Action == action, 'notification_wrong_address')
+                orc.check([r.tag for r in hib.reference_parameters] == ['{urn:verif}NotifyIdent'], 'notification_without_notify_reference_parameters')
             if sent:
                 m.fails = 0 if w.pool.outcome == 'ok' else m.fails + 1
         known = {_ep(m.notify) for m in w.subs}
@@ -443,6 +447,8 @@ def step(w, orc, op, t, p, q, zombies):
                 for e in mine:
                     orc.check((e[0], e[1]) == _ep(want) and e[2].p_msg.header_info_block.To == want,
                               'subscription_end_wrong_address')
+                    refs = [r.tag for r in e[2].p_msg.header_info_block.reference_parameters]
+                    orc.check(('{urn:verif}NotifyIdent' in refs) == (m.end is None), 'subscription_end_with_reference_parameters_of_another_endpoint')
         else:
             orc.check(not any(e[2].p_msg.header_info_block.Action == EventingActions.SubscriptionEnd for e in log),
                       'subscription_end_sent_although_not_requested')
@@ -482,7 +488,7 @@ def _sel_step(op, t, p, q, nt, slim):
     elif op in (OP_STATUS, OP_UNSUB):
         t_ = pick(t, tuple(range(nt)))
     elif op == OP_REPORT:
-        p_, q_ = pick(p, (0, 1)), pick(q, (0, 1, 2, 3))
+        p_, q_ = pick(p, (0, 1)), pick(q, tuple(range(len(env.OUTCOMES))))
     elif op == OP_ADVANCE:
         p_ = pick(p, (0, 1, 2))
     elif op == OP_STOP:
@@ -508,15 +514,15 @@ def mgr_history(mkset: int, mk: int, pre: int, n: int, nt: int, zombies: bool, s
     pre: 0 <= op1 < 8
     pre: 0 <= t1 < 4
     pre: 0 <= p1 < 3
-    pre: 0 <= q1 < 4
+    pre: 0 <= q1 < 7
     pre: 0 <= op2 < 8
     pre: 0 <= t2 < 4
     pre: 0 <= p2 < 3
-    pre: 0 <= q2 < 4
+    pre: 0 <= q2 < 7
     pre: 0 <= op3 < 8
     pre: 0 <= t3 < 4
     pre: 0 <= p3 < 3
-    pre: 0 <= q3 < 4
+    pre: 0 <= q3 < 7
     post: __return__ == 'ok'
     """
     mk, pre = pick(mk, pick(mkset, MKSETS)), pick(pre, tuple(range(len(PRE))))
@@ -528,3 +534,75 @@ def mgr_history(mkset: int, mk: int, pre: int, n: int, nt: int, zombies: bool, s
         steps.append(_sel_step(op3, t3, p3, q3, nt, slim))
     with untraced():
         return _history(mk, pre, steps, zombies)
+
+
+# ------------------------------------------------------------------------------------------------ delivery outcome at the soap client
+
+ERR_STATUS = (200, 202, 301, 400, 404, 500, 503)
+ERR_BODIES = (b'', b'<html><body><h1>404 Not Found</h1></body></html>', b'\xff\xfe\x00not utf-8', b'OK',
+              b'<s12:Envelope xmlns:s12="http://www.w3.org/2003/05/soap-envelope"><s12:Body><s12:Fault><s12:Code><s12:Value>s12:Receiver'
+              b'</s12:Value></s12:Code><s12:Reason><s12:Text xml:lang="en">x</s12:Text></s12:Reason></s12:Fault></s12:Body></s12:Envelope>')
+
+
+def client_error_status(use_async: bool, ssel: int, bsel: int) -> str:
+    """
+    What the delivery code of the subscriptions sees from the REAL SoapClient / SoapClientAsync when the subscriber answers
+    with status ERR_STATUS[ssel] and body ERR_BODIES[bsel] (empty, html error page, not utf-8, plain text, soap fault): an
+    error status (>= 300) is reported as HTTPReturnCodeError - the exception both managers count as a delivery failure and
+    survive - whatever the body is; a success status with an empty body is a successful delivery.
+    pre: 0 <= ssel < 7
+    pre: 0 <= bsel < 5
+    post: __return__ == 'ok'
+    """
+    import asyncio
+    from harness import httpstubs as hs
+    from sdc11073.definitions_sdc import SdcV1Definitions
+    from sdc11073.pysoap.msgreader import MessageReader
+    from sdc11073.pysoap.soapclient import HTTPReturnCodeError, SoapClient
+    from sdc11073.pysoap.soapclient_async import SoapClientAsync
+    status, body = pick(ssel, ERR_STATUS), pick(bsel, ERR_BODIES)
+    use_async = bool(use_async)
+    with untraced():
+        orc = Oracle()
+        try:
+            reader = MessageReader(SdcV1Definitions, None, hs.NullLogger(), validate=False)
+            payload = b'<?xml version="1.0" encoding="utf-8"?><x/>'
+            outcome = 'returned'
+            try:
+                if use_async:
+                    class Resp:
+                        reason = 'stub'
+
+                        async def text(self):
+                            return body.decode('utf-8', errors='replace')
+
+                        async def __aenter__(self):
+                            return self
+
+                        async def __aexit__(self, *a):
+                            return False
+                    Resp.status = status
+                    cl = SoapClientAsync('h:1', 1.0, hs.NullLogger(), None, SdcV1Definitions, reader, supported_encodings=[],
+                                         request_encodings=[], chunk_size=0)
+                    cl._http_connection = SimpleNamespace(post=lambda path, data=None, headers=None: Resp(), closed=False)
+                    msg = SimpleNamespace(p_msg=None, serialize=lambda request_manipulator=None: payload)
+                    asyncio.run(cl.async_post_message_to('/p', msg))
+                else:
+                    cl = SoapClient('h:1', 1.0, hs.NullLogger(), None, SdcV1Definitions, reader, supported_encodings=[],
+                                    request_encodings=[], chunk_size=0)
+                    cl._http_connection = SimpleNamespace(
+                        request=lambda *a, **k: None,
+                        getresponse=lambda: hs.FakeResponse(hs.CIHeaders([('Content-Length', str(len(body)))]), hs.FakeStream(body),
+                                                            status=status, reason='stub'))
+                    cl._send_soap_request('/p', payload, 'msg')
+            except HTTPReturnCodeError:
+                outcome = 'http_error'
+            except Exception as ex:  # noqa: BLE001
+                outcome = 'other:' + type(ex).__name__
+            if status >= 300:
+                orc.check(outcome == 'http_error', 'error_status_not_reported_as_http_error:' + outcome.split(':')[0])
+            elif body == b'':
+                orc.check(outcome == 'returned', 'successful_delivery_reported_as_failure')
+        except Exception as ex:  # noqa: BLE001
+            return exc_result(orc, ex, 'client')
+        return orc.result()
